@@ -265,6 +265,15 @@ void add_couple_point(theta_couple_point_t *out,
                       const theta_couple_point_t *T2);
 
 /**
+ * @brief Release the memory held by an isogeny chain
+ *
+ * @param chain a chain computed by one of the theta_chain_comput_* functions (or with steps == NULL)
+ *
+ * frees chain->steps and sets it to NULL
+ */
+void theta_chain_finalize(theta_chain_t *chain);
+
+/**
  * @brief Compute  a (2,2) isogeny chain in dimension 2 between elliptic products in the theta_model
  *
  * @param out Output: the theta_chain
